@@ -146,6 +146,7 @@ class Recorder:
         self.x_fn = lambda: policy_drops(self.policy)     # drops the policy reports itself
         self.qdrop_fn = lambda: self.res._queue.stats_dropped   # refusals counted by the Queue entity
         self.last_lim = None
+        self.max_tick = None
 
     # -- sampling ----------------------------------------------------------
     def tick(self):
@@ -160,6 +161,8 @@ class Recorder:
 
     def rec(self, op, i, defer=False):
         r = [op, i, self.tick()]
+        if self.max_tick is not None and r[2] > self.max_tick:
+            return               # beyond the requested end_time (the loop delivers one later event): not observed
         if defer:
             self.pending.append(r)
         else:
@@ -331,7 +334,7 @@ def mk_sc(wk="server", lim=1, kind="fifo", cap=INF, arr=(), sh=(0, 0), dyn=(), r
     p.update(prm)
     return {"wk": wk, "lim": lim, "prm": p, "W": list(W),
             "arr": [dict(t=a["t"], h=a.get("h", 0), s=a.get("s", 1), p=a.get("p", 0), f=a.get("f", 1)) for a in arr],
-            "sh": {"t": sh[0], "l": sh[1]}, "dyn": [{"t": t, "l": l} for (t, l) in dyn], "rt": rt}
+            "sh": {"t": sh[0], "l": sh[1]}, "dyn": [{"t": t, "l": l} for (t, l) in dyn], "rt": rt, "endt": 0}
 
 
 def run_scenario(sc, tick_ns=10 ** 9, end_tick=None, seed=0, weights=None):
@@ -340,6 +343,8 @@ def run_scenario(sc, tick_ns=10 ** 9, end_tick=None, seed=0, weights=None):
     weights: per-item capacity units -> Server with WeightedConcurrency (not modelled by QueuePipe)."""
     n = len(sc["arr"])
     rec = Recorder(tick_ns)
+    rec.max_tick = end_tick
+    sc = dict(sc, endt=end_tick or 0)
     prm, Wt = sc["prm"], sc["W"]
     holder = {}
     pol = make_policy(prm, Wt, clock=lambda: holder["res"].now, tick_ns=tick_ns)   # the configured policy
@@ -409,7 +414,7 @@ def run_scenario(sc, tick_ns=10 ** 9, end_tick=None, seed=0, weights=None):
                     *rec.sample()])
     q = res._queue
     completed = res.stats.requests_completed if sc["wk"] == "server" else res.processed
-    modelled = end_tick is None and weights is None and not (prm["thr"] < INF and prm["bm"] == 2)
+    modelled = weights is None and not (prm["thr"] < INF and prm["bm"] == 2)
     wk = sc["wk"] if not sc["dyn"] else "server_dyn"
     tr = _trace(prm, rep_cap(pol), [max(1, w) for w in Wt], [a["p"] for a in sc["arr"]],
                 [a["f"] for a in sc["arr"]], sc["lim"], rec.log,
@@ -426,7 +431,7 @@ EMPTY_SC = mk_sc()
 def _trace(prm, rcap, W, P, F, lim0, log, *, idle, order, cnt, sink, fin, wk, allof=1, sc=None, wt=None):
     return {"prm": prm, "rcap": rcap, "W": W, "P": P, "F": F, "wt": wt or [1] * len(P),
             "disc": 1 if wk in ("shifted", "reneging") else 0, "lim0": lim0, "idle": idle, "order": order,
-            "cnt": cnt, "sink": sink, "allof": allof, "dbg": 0,
+            "cnt": cnt, "sink": sink, "allof": allof, "dbg": 0, "cut": 0,
             "nomodel": 1 if prm["kind"] in ("codel", "red", "alifo") else 0, "hassc": 1 if sc else 0, "sc": sc or EMPTY_SC,
             "fin": fin, "log": log, "wk": wk}
 
